@@ -4,6 +4,7 @@ package server
 
 import (
 	"fmt"
+	mux "github.com/cbeuw/Cloak/internal/multiplex"
 	"github.com/cbeuw/Cloak/internal/vnet"
 	"net"
 	"strings"
@@ -29,19 +30,26 @@ func init() {
 		db := c.P("db", "mem")
 		var rig *e2eRig
 		var capViolation string
+		known := map[*mux.Session]int{}
+		bypassUser := c.P("bypass", "0") == "1"
 		sc := &vrt.Scenario{
 			Opt: vrt.Options{HorizonNs: int64(200 * time.Second), Delay: c.P("delay", "1") == "1", MemVars: true, MemPoints: c.P("mem", "0") == "1", Invariant: func() {
 				if rig == nil {
 					return
 				}
 				for u := 0; u < 2; u++ {
-					live := 0
+					// every session ever seen in the user's table counts for as long as it is open - also one that has
+					// just been taken out of the table and not been closed yet
 					for _, s := range sessionsOf(rig.sta.Panel, uidOf(u)) {
-						if !s.IsClosed() {
+						known[s] = u
+					}
+					live := 0
+					for s, ku := range known {
+						if ku == u && !s.IsClosed() {
 							live++
 						}
 					}
-					if live > cap {
+					if live > cap && !(bypassUser && u == 0) {
 						capViolation = fmt.Sprintf("user %d has %d live sessions, cap is %d", u, live, cap)
 						vrt.Fail("session-cap", "%s", capViolation)
 					}
@@ -50,6 +58,9 @@ func init() {
 			Classify: deadlockIs("no-deadlock"),
 			Main: func() {
 				rig = nil
+				for k := range known {
+					delete(known, k)
+				}
 				var base usermanager.UserManager
 				if db == "bolt" {
 					base = freshBoltManager()
